@@ -1878,7 +1878,11 @@ namespace xsimd
         {
             if (std::is_signed<T>::value)
             {
-                return sadd(self, -other);
+                // clamp self so that self - other cannot overflow (-other would, for other == MIN)
+                auto mask = other < 0;
+                auto other_pos_branch = max(std::numeric_limits<T>::min() + other, self);
+                auto other_neg_branch = min(std::numeric_limits<T>::max() + other, self);
+                return select(mask, other_neg_branch, other_pos_branch) - other;
             }
             else
             {
